@@ -1134,6 +1134,16 @@ func (g *Gen) gen(t *rapid.T, kind string) {
 		for i := 0; i < n; i++ {
 			op.F = append(op.F, Field{N: fmt.Sprintf("f%d", i), T: int32(ui(t, 0, 3, "call"))})
 		}
+		// every field of the catalogue object gets a non-zero value in some cases (a field forgotten by clone / marshal is only
+		// visible when it is set): the stream's condition and its select-all flag; a filter-only stream has no calls and no dims
+		switch ui(t, 0, 3, "streamKind") {
+		case 0:
+			op.S = pick(t, []string{"f0 > 1", "level = 'error'"}, "cond")
+		case 1:
+			op.S = pick(t, []string{"f0 > 1", "level = 'error'"}, "cond")
+			op.F, op.SS, op.Ns[0] = nil, op.SS[:3], 0
+			op.N = int64(ui(t, 0, 1, "selectAll"))
+		}
 		g.emit(op)
 	case "dropstream":
 		var ex []string
